@@ -6,7 +6,7 @@ for l in (0, 1, 63, 64, 65, 128, 130):
     inst(P, 'c01_basic_l%d' % l, 'c01::basic(%d)' % l, unwind=26, tier='quick' if l in (0, 65, 130) else 'thorough',
          desc='BitVector::from(RawVector): len/count_ones/count_zeros/get(all i)/round trip, %d symbolic bits' % l, shape={'len': l})
 for l in (0, 1, 64, 65, 129):
-    inst(P, 'c01_from_iter_l%d' % l, 'c01::from_iter(%d)' % l, unwind=132, tier='quick' if l in (0, 65) else 'thorough',
+    inst(P, 'c01_from_iter_l%d' % l, 'c01::from_iter(%d)' % l, unwind=132, tier='quick' if l in (0, 65) else ('deep' if l == 129 else 'thorough'),
          desc='FromIterator<bool> == From<RawVector>, %d symbolic bits' % l, shape={'len': l}, cap=600)
 for l in (1, 63, 64, 65, 511, 512, 513, 1023, 1024, 1101, 1536):
     inst(P, 'c01_rank_l%d' % l, 'c01::rank(%d)' % l, unwind=26, tier='quick' if l in (1, 64, 65, 513, 1101) else 'thorough', cap=600, weight=l,
@@ -34,7 +34,7 @@ for l in (1, 2, 7, 12):
         for regime in ('short', 'long'):
             q = (l == 7 and kind in ('select', 'select_zero')) or (l == 2 and kind in ('select_iter', 'select_zero_iter', 'pred_succ'))
             inst(P, 'c01_%s_%s_l%d' % (kind, regime, l), 'c01::%s(%d, %s)' % (kind, l, 'true' if regime == 'long' else 'false'), unwind=26, unwindset=select_unwindset(l),
-                 stubs=ALLOC, tier='quick' if q else ('deep' if l == 12 else 'thorough'),
+                 stubs=ALLOC, tier='quick' if q else ('deep' if (l == 12 or (l == 7 and kind == 'pred_succ')) else 'thorough'),
                  cap=900, cap_thorough=3600, mem=10, weight=100 + l,
                  desc='%s with the real SelectSupport::new, %s-superblock path: %d symbolic bits, argument over all usize' % (kind, regime, l),
                  shape={'len': l, 'regime': regime})
